@@ -148,12 +148,28 @@ theorem wleave {e4 eF : Enc} {w : W} {n : Nat} {bs : List Nat} {rest : List (Lis
   · simp [f0.depth]
   · intro x hx; exact mark_mono _ x (f0.mono x hx)
 
+theorem instrLen_pat {pc : Nat} (hb : seq[pc]? = some mds_PAT) : instrLen seq pc = some 2 := by
+  simp [instrLen, rd, hb, mds_REST, mds_SLR, mds_FINISH, mds_LP, mds_JUMP, mds_LPBL, mds_LPF, mds_LPB, mds_PAT, twoArgOps]
+  decide
+
+theorem plain_pat : plainOp mds_PAT := by unfold plainOp; decide
+
 mutual
 theorem wencN (nS nM : Nat) : ∀ (t : Node), t.lin = true → ∀ e : Enc, WOk (encN nS nM t) e
   | .ev ev, hl, e => by
     intro e' he seq start w hp g
     simp only [encN] at he
     obtain ⟨w1, l1, g1⟩ := wencEv_lin nS nM (by simpa [Node.lin] using hl) he hp g
+    exact ⟨w1, WR.ofLin l1, g1, l1.frame⟩
+  | .xbrk, _, e => by
+    intro e' he seq start w _ g
+    simp only [encN, Except.ok.injEq] at he; subst he
+    exact ⟨w, ⟨0, Nat.le_refl _, fun _ => rfl⟩, g, WFrame.rfl' w⟩
+  | .call arg _, _, e => by
+    intro e' he seq start w hp g
+    simp only [encN, Except.ok.injEq] at he; subst he
+    obtain ⟨w1, l1, g1⟩ := wcmd (e' := afterPAT e arg) (ops := [arg % 256]) g (show mds_PAT ≥ 0xe0 by decide) plain_pat
+      (fun pc hb => instrLen_pat hb) rfl (show mds_PAT ≥ 0xe0 by decide) hp
     exact ⟨w1, WR.ofLin l1, g1, l1.frame⟩
   | .loop body n, hl, e => by
     have hl' : linL body = true := by simpa [Node.lin] using hl
@@ -241,14 +257,15 @@ theorem wencL (nS nM : Nat) : ∀ (ts : List Node), linL ts = true → ∀ e : E
 end
 
 /-- **C03, walker: counted loops with and without break, nested** (stream < 64 KiB) -/
-theorem walk_accepts_loops (nS nM : Nat) (ts : List Node) (hl : linL ts = true) (farg : Nat) :
+theorem walk_accepts_loops (nS nM : Nat) (ts : List Node) (hl : linL ts = true) (hk : brkOkL false ts = true)
+    (farg : Nat) :
     ∃ e', encL nS nM ts {} = .ok e' ∧
       (e'.out.length + 1 < 65536 →
         convertTrack nS nM (flatL ts ++ [⟨mds_FINISH, farg⟩]) = .ok (e'.out ++ [mds_FINISH]) ∧
         ∀ fuel, fuel ≥ e'.out.length + 1 → walk (e'.out ++ [mds_FINISH]) 0 fuel { pc := 0 } = .ok (e'.out.length + 1)) := by
   obtain ⟨e1, he1, _, _, _⟩ := encL_total nS nM ts hl {}
   refine ⟨e1, he1, fun hb => ⟨?_, ?_⟩⟩
-  · have := encL_eq nS nM ts hl {} e1 he1 (by omega)
+  · have := encL_eq nS nM ts false hl hk {} e1 (fun h => by cases h) he1 (by omega)
     simp [convertTrack, encAll_append, this, encAll, encEv_finish, Except.map]
   · intro fuel hf
     have hp : e1.out ++ [mds_FINISH] <+: e1.out ++ [mds_FINISH] := List.prefix_refl _
